@@ -32,6 +32,7 @@ type caseResult struct {
 	Finds []finding `json:"finds,omitempty"`
 	NPack int       `json:"npack,omitempty"`
 	Drops int       `json:"drops,omitempty"`
+	Incon bool      `json:"inconclusive,omitempty"` // a time bound could not be judged: the machine was starved
 }
 
 type indexedCase struct {
@@ -49,7 +50,7 @@ func runCase(c *Case) *caseResult {
 		return &caseResult{Line: c.driverLine(e.recs), Packs: d.packs, State: d.state, Finds: d.finds, NPack: d.nPack}
 	case "reconf":
 		r := runReconf(c, e)
-		return &caseResult{Line: r.modelLine, Packs: r.packs, Finds: r.finds, NPack: r.nPack}
+		return &caseResult{Line: r.modelLine, Packs: r.packs, Finds: r.finds, NPack: r.nPack, Incon: r.inconclusive}
 	case "free":
 		f := runFree(c, e)
 		return &caseResult{Line: f.modelLine, Packs: f.packs, Finds: f.finds, NPack: f.nPack, Drops: f.drops}
@@ -199,17 +200,20 @@ func runInWorkers(env *vh.Env, rep *vh.Report, jobs []*job) {
 		return
 	}
 	const nProc, par = 4, 2
-	perCase := 45 * time.Second // isolation runs
-	chunkDeadline := 6 * time.Minute
+	// deadlines only bound hangs: they are generous, and an expired one never is a verdict by itself —
+	// the cases concerned are re-run alone, patiently, and alone once more with twice the time
+	perCase := 4 * time.Minute
+	chunkDeadline := 8 * time.Minute
 	if env.Thorough {
 		chunkDeadline = 40 * time.Minute
-		perCase = 5 * time.Minute
+		perCase = 10 * time.Minute
 	}
 	pending := make([]int, len(jobs))
 	for i := range jobs {
 		pending[i] = i
 	}
-	suspects := map[int]string{} // in flight when a worker died: idx -> crash report
+	suspects := map[int]string{}   // in flight when a worker died or was stopped: idx -> crash report
+	deadlineOnly := map[int]bool{} // … the worker was stopped at its deadline (no crash): maybe just a slow machine
 	for round := 0; round < 4 && len(pending) > 0; round++ {
 		chunks := make([][]int, nProc)
 		for k, i := range pending {
@@ -245,6 +249,9 @@ func runInWorkers(env *vh.Env, rep *vh.Report, jobs []*job) {
 				rep.Note("worker %d of round %d %s with %d case(s) in flight, %d not started", p, round, what, len(wo.inFlight), len(wo.notRun))
 				for _, i := range wo.inFlight {
 					suspects[i] = what + "\n" + panicHead(wo.stderr)
+					if wo.hung {
+						deadlineOnly[i] = true
+					}
 				}
 				if len(wo.inFlight) == 0 && len(wo.notRun) > 0 && wo.crashed {
 					// died outside any case (e.g. while decoding its input): do not loop for ever
@@ -271,16 +278,24 @@ func runInWorkers(env *vh.Env, rep *vh.Report, jobs []*job) {
 		}
 		nAlone++
 		wo := spawnWorker(self, dir, fmt.Sprintf("solo%d", i), jobs, []int{i}, 1, perCase)
+		if wo.hung {
+			wo = spawnWorker(self, dir, fmt.Sprintf("solo%db", i), jobs, []int{i}, 1, 2*perCase)
+		}
 		c := jobs[i].c
 		if r := wo.finished[i]; r != nil {
 			jobs[i].res = r
+			if deadlineOnly[i] {
+				// the chunk ran out of time and the case is fine by itself: a loaded machine, not a finding
+				rep.Note("case %d (%s) was in flight when a worker reached its deadline; re-run alone it finished normally", i, c.Kind)
+				continue
+			}
 			together = append(together, c)
 			report = why
 			continue
 		}
 		replay := map[string]interface{}{"case": c, "crash_report": panicHead(wo.stderr)}
 		if wo.hung {
-			rep.Fail("property", c.Kind+":hang", fmt.Sprintf("this scenario, run alone in a fresh process, does not finish within %v: the sender (or a call into it) hangs", perCase), replay)
+			rep.Fail("property", c.Kind+":hang", fmt.Sprintf("this scenario, run alone in a fresh process, does not finish within %v (second attempt, after %v): the sender (or a call into it) hangs", 2*perCase, perCase), replay)
 		} else {
 			rep.Fail("property", c.Kind+":process-crash", "this scenario, run alone in a fresh process, crashes the process (a panic outside the caller's reach, e.g. in the sender's background goroutine): "+
 				vh.Clip(firstLine(panicHead(wo.stderr)), 300), replay)
